@@ -353,6 +353,7 @@ func (ps *peerStore) PutSeeder(ih bittorrent.InfoHash, p bittorrent.Peer) error 
 	pk := newPeerKey(p)
 
 	encodedSeederInfoHash := ps.seederInfohashKey(addressFamily, ih.String())
+	encodedLeecherInfoHash := ps.leecherInfohashKey(addressFamily, ih.String())
 	ct := ps.getClock()
 
 	conn := ps.rb.open()
@@ -361,11 +362,20 @@ func (ps *peerStore) PutSeeder(ih bittorrent.InfoHash, p bittorrent.Peer) error 
 	_ = conn.Send("MULTI")
 	_ = conn.Send("HSET", encodedSeederInfoHash, pk, ct)
 	_ = conn.Send("HSET", addressFamily, encodedSeederInfoHash, ct)
+	// A peer has a single role per swarm: if it was a leecher, it no longer is.
+	_ = conn.Send("HDEL", encodedLeecherInfoHash, pk)
 	reply, err := redis.Int64s(conn.Do("EXEC"))
 	if err != nil {
 		return err
 	}
 
+	// pk was a leecher.
+	if reply[2] == 1 {
+		_, err = conn.Do("DECR", ps.leecherCountKey(addressFamily))
+		if err != nil {
+			return err
+		}
+	}
 	// pk is a new field.
 	if reply[0] == 1 {
 		_, err = conn.Do("INCR", ps.seederCountKey(addressFamily))
@@ -433,6 +443,7 @@ func (ps *peerStore) PutLeecher(ih bittorrent.InfoHash, p bittorrent.Peer) error
 
 	// Update the peer in the swarm.
 	encodedLeecherInfoHash := ps.leecherInfohashKey(addressFamily, ih.String())
+	encodedSeederInfoHash := ps.seederInfohashKey(addressFamily, ih.String())
 	pk := newPeerKey(p)
 	ct := ps.getClock()
 
@@ -442,9 +453,18 @@ func (ps *peerStore) PutLeecher(ih bittorrent.InfoHash, p bittorrent.Peer) error
 	_ = conn.Send("MULTI")
 	_ = conn.Send("HSET", encodedLeecherInfoHash, pk, ct)
 	_ = conn.Send("HSET", addressFamily, encodedLeecherInfoHash, ct)
+	// A peer has a single role per swarm: if it was a seeder, it no longer is.
+	_ = conn.Send("HDEL", encodedSeederInfoHash, pk)
 	reply, err := redis.Int64s(conn.Do("EXEC"))
 	if err != nil {
 		return err
+	}
+	// pk was a seeder.
+	if reply[2] == 1 {
+		_, err = conn.Do("DECR", ps.seederCountKey(addressFamily))
+		if err != nil {
+			return err
+		}
 	}
 	// pk is a new field.
 	if reply[0] == 1 {
